@@ -276,7 +276,11 @@ func secondOpinion(ctx context.Context, res *SolveResult, file string, opts Solv
 		if i == skip || (skip >= 3 && i == 0) {
 			continue
 		}
-		st, _, el := runSolver(ctx, solvers[i], file, opts.Timeout)
+		t2 := opts.Timeout
+		if t2 > 15 {
+			t2 = 15 // a second opinion is a cross-check, not a second proof attempt: undecided within 15 s counts as "none"
+		}
+		st, _, el := runSolver(ctx, solvers[i], file, t2)
 		res.Tried = append(res.Tried, fmt.Sprintf("%s:%s:%.2fs(second)", solvers[i].Name, st, el))
 		if st == "unsat" {
 			res.Agree = append(res.Agree, solvers[i].Name)
